@@ -1,7 +1,7 @@
 (* C09 — remote ports: whitelisted, exclusive, truthfully reported, quota-bounded.
    Only statements here; proofs live in Proofs/PortsProofs.v and Proofs/PortSrvProofs.v. *)
-From FRP Require Import Model.Ports Model.PortSrv Model.PortSched Proofs.PortsProofs Proofs.PortSrvProofs
-  Proofs.PortOwnProofs Proofs.PortSchedProofs.
+From FRP Require Import Model.Ports Model.PortSrv Model.PortSched Model.PortCfg Proofs.PortsProofs Proofs.PortSrvProofs
+  Proofs.PortOwnProofs Proofs.PortSchedProofs Proofs.PortCfgProofs gen.GenC09Facts.
 Open Scope Z_scope.
 
 (* ---- the port manager (server/ports/ports.go) ---- *)
@@ -322,6 +322,60 @@ Print Assumptions C09_ports_held_within_quota.
 Theorem C09_grouped_proxy_weighs_one : forall q, xq_kind q = KTcp -> pweight (xq_kind q) = 1.
 Proof. exact grouped_proxy_weighs_one. Qed.
 Print Assumptions C09_grouped_proxy_weighs_one.
+
+(* ---- reflective obligations over today's source (gen/GenC09Facts.v, regenerated on every run) ---- *)
+
+(* pkg/msg/handler.go + server/control.go, read today: registered handlers are called by the dispatcher's read
+   loop and nowhere else, only the read loop closes doneCh (when its own read fails), NewProxy and CloseProxy
+   are registered without AsyncHandler, Control.worker tears down after waiting for Done *)
+Theorem C09_handlers_run_in_read_loop_today : today_inline = true.
+Proof. reflexivity. Qed.
+Print Assumptions C09_handlers_run_in_read_loop_today.
+
+(* hence, for every sequence of message arrivals, handler returns and connection errors: when doneCh is
+   closed no handler is running and none starts afterwards — a session's teardown never overlaps one of its
+   own registrations, which is what lets the layered model run YNewProxy / YCloseProxy / YSessionEnd of one
+   session as steps of one thread (and the schedule model close a thread's proxy only after PLive) *)
+Theorem C09_teardown_never_overlaps_handler : forall evs s,
+  d_run today_inline evs d_init = Some s -> d_done s = true -> d_busy s = false.
+Proof. exact done_excludes_handler. Qed.
+Print Assumptions C09_teardown_never_overlaps_handler.
+
+Theorem C09_no_handler_after_done : forall s e s',
+  d_done s = true -> d_step today_inline s e = Some s' -> d_busy s' = false /\ d_done s' = true.
+Proof. exact no_handler_after_done. Qed.
+Print Assumptions C09_no_handler_after_done.
+
+Theorem C09_separate_handle_loop_refuted :
+  exists s, d_run false [DMsg; DStart; DConnError] d_init = Some s /\ d_done s = true /\ d_busy s = true.
+Proof. exact separate_handle_loop_refuted. Qed.
+Print Assumptions C09_separate_handle_loop_refuted.
+
+(* pkg/config/types/types.go + pkg/config/legacy, read today: every number of an allowPorts list is trimmed
+   before it is parsed, and the legacy conversion feeds allow_ports through that parser *)
+Theorem C09_allow_ports_items_trimmed_today : today_trim = true.
+Proof. reflexivity. Qed.
+Print Assumptions C09_allow_ports_items_trimmed_today.
+
+(* hence blanks around any number of the list, in any amount, do not change what is parsed *)
+Theorem C09_allow_ports_blanks_do_not_matter : forall l c r,
+  all_space l -> all_space r -> tight c -> parse_num today_trim (l ++ c ++ r) = parse_int c.
+Proof. exact parse_num_blank_insensitive. Qed.
+Print Assumptions C09_allow_ports_blanks_do_not_matter.
+
+(* the configured set is the enforced set for the usual ini spellings (whole parser, then NewManager) *)
+Theorem C09_legacy_ini_allow_ports_enforced :
+  pm_free (pm_new (legacy_allow_ports today_trim "20000-20003, 20020")) = [20000; 20001; 20002; 20003; 20020] /\
+  pm_free (pm_new (legacy_allow_ports today_trim " 4000 - 4002 ,4020,	4030")) = [4000; 4001; 4002; 4020; 4030].
+Proof. split; reflexivity. Qed.
+Print Assumptions C09_legacy_ini_allow_ports_enforced.
+
+Theorem C09_untrimmed_items_refuted :
+  parse_ports false "20000-20010, 20020" = None /\
+  legacy_allow_ports false "20000-20010, 20020" = [] /\
+  legacy_allow_ports true "20000-20010, 20020" = [(20000, 20010, 0); (0, 0, 20020)].
+Proof. exact untrimmed_items_refuted. Qed.
+Print Assumptions C09_untrimmed_items_refuted.
 
 (* a reachable, non-trivial history: two sessions, quota 1, a grouped proxy with a server-chosen port, a
    refused over-quota registration, a failing listen, a close and a late second close *)
